@@ -117,13 +117,22 @@ func (f *BigFloat) SetElkFloat32(x Float32) *BigFloat {
 	return f.SetFloat64(float64(x))
 }
 
+// Calculate the hash of the number.
+// Values that are equal (`==`) have equal hashes: the hash depends only
+// on the numeric value, not on the precision it is stored with,
+// and `0.0` and `-0.0` hash alike.
 func (f *BigFloat) Hash() UInt64 {
 	d := xxhash.New()
-	bytes, err := f.AsGoBigFloat().GobEncode()
-	if err != nil {
-		panic(fmt.Sprintf("could not create a hash for big float: %s", err))
+	g := f.AsGoBigFloat()
+	switch {
+	case f.IsNaN():
+		d.WriteString("NaN")
+	case g.Sign() == 0:
+		d.WriteString("0")
+	default:
+		// exact hexadecimal mantissa and binary exponent, trailing zeros trimmed
+		d.WriteString(g.Text('p', 0))
 	}
-	d.Write(bytes)
 	return UInt64(d.Sum64())
 }
 
